@@ -265,6 +265,7 @@ class C04(SystematicMixin, E2ECheck):
     quick_examples = 24000
     thorough_examples = 600000
     profile = {
+        'latency': True,
         'limits': 'ones', 'ntransfers': (1, 4),
         'subs': {'max': 2, 'reenter': True, 'raise_done': True,
                  'size': True},
@@ -338,7 +339,9 @@ class C01(RealScaleMixin, LegacyMixin, E2ECheck):
             ups = oracles.uploads_of(R, r)
             nparts = max([len(getattr(u, 'final_parts', [])) for u in ups]
                          or [0])
-            cls.append(f'{r["type"]}:{m}:parts={min(nparts, 4)}')
+            cls.append(f'{r["type"]}:{m}:parts='
+                       + (str(nparts) if nparts < 4 else '4-9' if nparts < 10
+                          else '10+'))
             if nparts >= 2 or rew or r['spec'].get('src') in (
                     'seek', 'nonseek') or boundary_size(R, r):
                 nt = True
@@ -434,6 +437,7 @@ class C05(SystematicMixin, LegacyMixin, E2ECheck):
     quick_examples = 32000
     thorough_examples = 500000
     profile = {
+        'latency': True,
         'types': ['upload', 'upload', 'copy'], 'ntransfers': (1, 2),
         'subs': {'max': 1, 'size': True}, 'body_scripts': True,
         'max_thr': 12, 'max_chunk': 10, 'size_bias': 'multi',
@@ -519,6 +523,7 @@ class C07(E2ECheck):
     quick_examples = 32000
     thorough_examples = 500000
     profile = {
+        'latency': True,
         'ntransfers': (1, 3), 'subs': {'max': 1, 'size': True},
         'body_scripts': True, 'stream_scripts': True,
         'cancels': 2, 'kbi': True,
@@ -562,6 +567,7 @@ class C08(E2ECheck):
     quick_examples = 32000
     thorough_examples = 500000
     profile = {
+        'latency': True,
         'ntransfers': (1, 3),
         'subs': {'min': 1, 'max': 3, 'size': True, 'raise_done': True},
         'body_scripts': True, 'stream_scripts': True,
@@ -737,10 +743,11 @@ class C10(E2ECheck):
     profile = {
         'ntransfers': (2, 6), 'limits': 'ones', 'execs': ['thr'],
         'subs': {'max': 1, 'size': True}, 'max_thr': 16, 'max_chunk': 8,
-        'ends': ['shutdown'], 'lines': True,
+        'ends': ['shutdown'], 'lines': True, 'large': True, 'latency': True,
     }
     rule = ('cases = 2-6 concurrent transfers of mixed types, limits biased '
-            'to 1-2, threaded executor, PCT/walk/preempt schedules; oracle '
+            'to 1-2 (one case in eight: limits of 5-10 incl. the defaults, '
+            '5-10 transfers), threaded executor, PCT/walk/preempt schedules; oracle '
             'at every step from begin/end events and the instrumented '
             'executors; non-trivial = some limit was reached (count = bound)')
 
@@ -749,9 +756,15 @@ class C10(E2ECheck):
         cfg = R.case['cfg']
         nt = False
         pk = getattr(R, 'c10_peak', (0, 0))
+        large = cfg['max_request_concurrency'] >= 5
+        if large:
+            cls.append('large-settings')
+            cls.append(f'large:peak-requests={min(pk[0], 10)}')
         if pk[0] >= cfg['max_request_concurrency']:
             nt = True
             cls.append('request-concurrency-reached')
+            if large:
+                cls.append('large:request-concurrency-reached')
         if pk[1] >= cfg['max_submission_concurrency']:
             nt = True
             cls.append('submission-concurrency-reached')
@@ -771,6 +784,7 @@ class C11(E2ECheck):
     quick_examples = 24000
     thorough_examples = 300000
     profile = {
+        'latency': True,
         'types': ['upload', 'download'], 'srcs': ['seek', 'nonseek'],
         'dsts': ['nonseek', 'nonseek', 'special', 'path'],
         'ntransfers': (1, 4), 'limits': 'ones', 'execs': ['thr'],
@@ -796,6 +810,7 @@ class C18(E2ECheck):
     quick_examples = 20000
     thorough_examples = 250000
     profile = {
+        'latency': True,
         'ntransfers': (2, 4), 'subs': {'max': 1, 'size': True},
         'body_scripts': True, 'stream_scripts': True,
         'stream_hard_faults': True,
